@@ -79,6 +79,11 @@ add('C17', 'E-RUN+E-SQLDRV+E-CHSQL+upstream promql engine', 'exploration',
     'Trusted: E-CHSQL, the Prometheus matcher evaluator (cross-checked against labels.Matcher), the pinned upstream promql engine as reference; samples exactly on a window\'s left edge are probes.',
     'runtime monitoring: cursor model checking over recorded operation sequences, differential execution against the upstream engine', 'DESIGN §3 C17')
 
+add('C14', 'E-RUN+E-SQLDRV+E-CHSQL+E-REF(logq)', 'exploration',
+    'Two runtime monitors over recorded SQL: (a) determinism - every LogQL (log, metric, split), TraceQL (incl. the multi-portion processor, whose per-portion statements must keep one structure) and Pyroscope request is translated three times interleaved with other queries, and mixes of queries are translated from 8 goroutines: the statements must be byte-identical; (b) re-execution - one prepared LogQL chain is executed five times with advancing windows exactly as Tail does and every execution is compared with a fresh translation for the same window: identical statements, or at least identical rows when executed by the reference interpreter on the same tables.',
+    'Trusted: statement recording at the database/sql seam; E-CHSQL for the semantic fallback. Re-execution of TraceQL / profile plan objects is covered only through the processors that call Process repeatedly inside one request.',
+    'runtime monitoring: differential comparison of recorded SQL across repeated and concurrent translations and plan re-executions', 'DESIGN §3 C14')
+
 NOT_APPLICABLE = {
 }
 ALL = ['C%02d' % i for i in range(1, 21)]
